@@ -208,17 +208,21 @@ theorem chain_snoc (R : Call α → Call α → Prop) (calls : List (Call α)) (
   subst hy
   exact hl x hx
 
-theorem inv_step (m : Mon α) (calls : List (Call α)) (op : Op α) (hkw : op.kwOk cfg = true) (h : Inv cfg m calls) :
+theorem inv_step (m : Mon α) (calls : List (Call α)) (op : Op α) (h : Inv cfg m calls) :
     Inv cfg (m.step cfg rnd op).1 (calls ++ (callOf op (m.step cfg rnd op).2).toList) := by
   obtain ⟨h1, h2, h3, h4, h5⟩ := h
   cases op with
   | reset kw =>
-    have hb := bindResetKw_ok cfg.resetKeys kw m.resetInfo (by simpa [Op.kwOk] using hkw)
     unfold Mon.step
     by_cases hE : (!cfg.allowEarly && !m.needsReset) = true
     · simp only [hE, if_true, callOf, Option.toList, List.append_nil]
       exact ⟨h1, h2, h3, h4, h5⟩
-    · simp only [hE, Bool.false_eq_true, if_false, hb, if_true, callOf, Option.toList]
+    · by_cases hb : (bindResetKw cfg.resetKeys kw m.resetInfo).2 = true
+      swap
+      · -- the reset is rejected (keyword missing): rewards / needs_reset untouched, env not called
+        simp only [hE, Bool.false_eq_true, if_false, hb, callOf, Option.toList, List.append_nil]
+        exact ⟨h1, h2, h3, h4, h5⟩
+      simp only [hE, Bool.false_eq_true, if_false, hb, if_true, callOf, Option.toList]
       refine ⟨fun _ => (openSeg_snoc_reset calls).symm, ?_, ?_, ?_, ?_⟩
       · simp [lastDone_snoc, Call.isDone]
       · exact head?_snoc_of calls _ h3 (fun _ => rfl)
@@ -276,13 +280,13 @@ theorem inv_step (m : Mon α) (calls : List (Call α)) (op : Op α) (hkw : op.kw
         exact key _ false rfl (fun _ => rfl)
 
 theorem inv_run (m : Mon α) (calls : List (Call α)) (ops : List (Op α))
-    (hkw : ∀ op ∈ ops, op.kwOk cfg = true) (h : Inv cfg m calls) :
+    (h : Inv cfg m calls) :
     Inv cfg (Mon.run cfg rnd m ops).1 (calls ++ Mon.trace cfg rnd m ops) := by
   induction ops generalizing m calls with
   | nil => simpa [run_nil, trace_nil] using h
   | cons op ops ih =>
     rw [run_cons, trace_cons, ← List.append_assoc]
-    exact ih _ _ (fun o ho => hkw o (by simp [ho])) (inv_step cfg rnd m calls op (hkw op (by simp)) h)
+    exact ih _ _ (inv_step cfg rnd m calls op h)
 
 /-- the answer to call `k` is the answer of the state reached after the first `k` calls -/
 theorem outs_getElem? (m : Mon α) (ops : List (Op α)) (k : ℕ) (hk : k < ops.length) :
@@ -305,8 +309,7 @@ theorem step_emits (m : Mon α) (op : Op α) (ep : EpInfo α) (h : (m.step cfg r
     simp only [Mon.step] at h
     split at h
     · simp at h
-    · simp only at h
-      split at h <;> simp at h
+    · split at h <;> simp at h
   | step r te tr info =>
     refine ⟨r, te, tr, info, rfl, ?_⟩
     simp only [Mon.step] at h
@@ -331,7 +334,7 @@ end monitor
 section monitor2
 variable [Add α] [Zero α] (cfg : MonCfg) (rnd : α → α)
 
-theorem episode_exact (ops : List (Op α)) (hkw : ∀ op ∈ ops, op.kwOk cfg = true) (k : ℕ) (ep : EpInfo α)
+theorem episode_exact (ops : List (Op α)) (k : ℕ) (ep : EpInfo α)
     (hk : (Mon.run cfg rnd Mon.init ops).2[k]? = some (Out.stepOk (some ep))) :
     ∃ r te tr info, ops[k]? = some (Op.step r te tr info) ∧ (te || tr) = true ∧
       ep.r = rnd (pySum (openSeg (Mon.trace cfg rnd Mon.init (ops.take k)) ++ [r])) ∧
@@ -341,8 +344,7 @@ theorem episode_exact (ops : List (Op α)) (hkw : ∀ op ∈ ops, op.kwOk cfg = 
     rwa [run_outs_length] at this
   rw [outs_getElem? cfg rnd _ _ k hlen] at hk
   obtain ⟨r, te, tr, info, hop, hnr, hd, hr, hl⟩ := step_emits cfg rnd _ _ ep (Option.some.inj hk)
-  have hinv := inv_run cfg rnd Mon.init [] (ops.take k)
-    (fun o ho => hkw o (List.mem_of_mem_take ho)) (inv_init cfg)
+  have hinv := inv_run cfg rnd Mon.init [] (ops.take k) (inv_init cfg)
   rw [List.nil_append] at hinv
   have hrew := hinv.1 hnr
   refine ⟨r, te, tr, info, ?_, hd, ?_, ?_⟩
@@ -351,12 +353,12 @@ theorem episode_exact (ops : List (Op α)) (hkw : ∀ op ∈ ops, op.kwOk cfg = 
   · rw [hl, hrew]
 
 /-- the calls that reach the wrapped env respect its protocol -/
-theorem protocol (ops : List (Op α)) (hkw : ∀ op ∈ ops, op.kwOk cfg = true) :
+theorem protocol (ops : List (Op α)) :
     (∀ c ∈ (Mon.trace cfg rnd Mon.init ops).head?, c = Call.reset) ∧
     (Mon.trace cfg rnd Mon.init ops).IsChain (fun a b => a.isDone = true → b = Call.reset) ∧
     (cfg.allowEarly = false →
       (Mon.trace cfg rnd Mon.init ops).IsChain (fun a b => b = Call.reset → a.isDone = true)) := by
-  have hinv := inv_run cfg rnd Mon.init [] ops hkw (inv_init cfg)
+  have hinv := inv_run cfg rnd Mon.init [] ops (inv_init cfg)
   rw [List.nil_append] at hinv
   exact ⟨hinv.2.2.1, hinv.2.2.2.1, hinv.2.2.2.2⟩
 
@@ -369,8 +371,7 @@ theorem step_rows (m : Mon α) (op : Op α) :
     simp only [Mon.step]
     split
     · simp [Out.ep?]
-    · simp only
-      split <;> simp [Out.ep?]
+    · split <;> simp [Out.ep?]
   | step r te tr info =>
     simp only [Mon.step]
     split
@@ -426,13 +427,37 @@ theorem presence (ops : List (Op α)) (k : ℕ) (r : α) (te tr : Bool) (info : 
 
 end monitor2
 
-/-- the defect K-C18-a on a concrete history -/
+/-! ### Why the order inside `Monitor.reset` matters (F-C18-a, fixed in /repo by 43bb017)
+
+Before the fix `reset` cleared `self.rewards` / `needs_reset` *before* the keyword loop. `stepOld` is that
+old behaviour; on the history below it reports an episode of return 2 and length 1 although the wrapped
+environment saw one episode of two steps with return 3 — the invariant `Inv` does not survive a rejected
+reset. (Only used for this remark: the driver and all property theorems use `Mon.step`.) -/
+
+def stepOld [Add α] [Zero α] (cfg : MonCfg) (rnd : α → α) (m : Mon α) : Op α → Mon α × Out α
+  | .reset kw =>
+    if !cfg.allowEarly && !m.needsReset then (m, .errEarlyReset)
+    else
+      let (ri, ok) := bindResetKw cfg.resetKeys kw m.resetInfo
+      ({ m with rewards := [], needsReset := false, resetInfo := ri }, if ok then .resetOk else .errMissingKw)
+  | op => m.step cfg rnd op
+
+def runOld [Add α] [Zero α] (cfg : MonCfg) (rnd : α → α) : Mon α → List (Op α) → Mon α × List (Out α)
+  | m, [] => (m, [])
+  | m, op :: ops =>
+    let r1 := stepOld cfg rnd m op
+    let r2 := runOld cfg rnd r1.1 ops
+    (r2.1, r1.2 :: r2.2)
+
 def cexCfg : MonCfg := { allowEarly := true, infoKeys := [], resetKeys := ["k"] }
 def cexOps : List (Op Int) := [.reset [("k", 1)], .step 1 false false [], .reset [], .step 2 true false []]
 
-theorem cex_outs : ((Mon.run cexCfg id Mon.init cexOps).2.filterMap Out.ep?).map (fun e => (e.r, e.l)) = [(2, 1)] := by
+theorem old_order_wrong : ((runOld cexCfg id Mon.init cexOps).2.filterMap Out.ep?).map (fun e => (e.r, e.l)) = [(2, 1)] := by
   decide
-theorem cex_trace : Mon.trace cexCfg id Mon.init cexOps = [.reset, .step 1 false, .step 2 true] := by
+
+theorem new_order_right : ((Mon.run cexCfg id Mon.init cexOps).2.filterMap Out.ep?).map (fun e => (e.r, e.l)) = [(3, 2)] ∧
+    (Mon.run cexCfg id Mon.init cexOps).2[2]? = some Out.errMissingKw ∧
+    Mon.trace cexCfg id Mon.init cexOps = [.reset, .step 1 false, .step 2 true] := by
   decide
 
 section vec
